@@ -19,7 +19,18 @@ fn main() {
         "diff-ownership" => Box::new(fam::diff::Diff::new("ownership")),
         "diff-effects" => Box::new(fam::diff::Diff::new("effects")),
         "survive" => Box::new(fam::survive::Survive::new(&args)),
+        "illtyped" => Box::new(fam::illtyped::IllTyped::new(&args)),
+        "totality" => Box::new(fam::totality::Totality::new(&args)),
         "corpus" => Box::new(fam::corpus::Corpus::new(&args)),
+        "sig-gate" => Box::new(fam::catalog::gate::Gate::new(&args)),
+        "boundary" => Box::new(fam::catalog::boundary::Boundary::new(&args)),
+        "builtins" => Box::new(fam::builtins::Builtins::new(&args)),
+        "modules" => Box::new(fam::modules::Modules::new()),
+        "tests-inproc" => Box::new(fam::testrunner::TestRunner::new("inproc", &args)),
+        "tests-cli" => Box::new(fam::testrunner::TestRunner::new("cli", &args)),
+        "list-api" => Box::new(fam::listmodel::ListApi::new(&args)),
+        "list-script" => Box::new(fam::listmodel::ListScript::new(&args)),
+        "registration" => Box::new(fam::registration::Registration::new()),
         f => {
             eprintln!("unknown family {f}");
             std::process::exit(2);
